@@ -44,6 +44,9 @@ def run(tier, seed):
     seeds = [seed * 1000 + 600 + i for i in range(nmod)]
     builds = harness.make_many(tc, seeds, prof, atoms=10, composites=10)
     builds += harness.make_many(tc, [s + 50 for s in seeds[: max(1, nmod // 2)]], prof, atoms=8, composites=8, options=("-fwide-types",))
+    from ..asn import shapes
+    builds.append(harness.make(tc, seed * 1000 + 698, prof, module_fn=lambda g: shapes.build4("EQ")))
+    builds.append(harness.make(tc, seed * 1000 + 699, prof, module_fn=lambda g: shapes.build4("EQ"), options=("-fwide-types",)))
     for b in builds:
         if b.exe is None:
             chk.inconcl("module not built (%s)" % b.error[0])
@@ -52,7 +55,7 @@ def run(tier, seed):
         cases, meta = [], {}
         cid = 0
         for tname, t in b.mod.types.items():
-            for v in b.gen.values(t, 3 if quick else 8):
+            for v in (shapes.values4(b.mod, tname, rng, quick) if b.mod.name == "EQ" else b.gen.values(t, 3 if quick else 8)):
                 try:
                     tree = enc.tree(t, v)
                 except der.Unsupported:
@@ -66,7 +69,7 @@ def run(tier, seed):
                     plan.append(("xf:" + xf, None))
                 vars_ = []
                 if len(ref) < 3000:
-                    vars_ += variants.ber_semantic_variants(rng, b.mod, t, v, enc, 2 if quick else 6)
+                    vars_ += variants.ber_semantic_variants(rng, b.mod, t, v, enc, (8 if b.mod.name == "EQ" else 2) if quick else 6)
                     vars_ += [(f, x) for f, x in variants.ber_variants(rng, tree, 1) if "cstrtagged" not in f and "indefmix" not in f][:3]
                     t2 = der.Encoder(b.mod).tree(t, v)
                     if dirty_unused_bits(t2, rng):
